@@ -31,6 +31,10 @@
 //	f<bit>:<nbits>:<p>    the nbits (<= 64) of one decoded leaf field replaced: z = 0..0 (zero size/count),
 //	                      o = 1..1, 1 = 0..01, m = 10..0 (EBML zero size / sign bit), s = 01..1 (max signed)
 //
+//	cb:<carrier>:<hdr>:<fill>:<len>:<off>.<hex>,…   a GENERATED input (base `gen:cb`, not used): a payload of len filler
+//	                      bytes with patterns written at the offsets, wrapped so that the carrier's decoder reads it
+//	                      through its stream-transforming io.Reader — the `chunk` jobs of chunks.go
+//
 // The list depends only on n, so that `(path, index range, seed, modulus)` names a reproducible batch.
 package main
 
@@ -123,6 +127,8 @@ func enumFamily(n int) []string {
 // mutKind is the family branch of a descriptor (statistics and class keys)
 func mutKind(m string) string {
 	switch {
+	case strings.HasPrefix(m, "cb:"):
+		return "chunk"
 	case strings.Contains(m, "+"):
 		return "runlen"
 	case strings.HasPrefix(m, "run"):
@@ -160,6 +166,9 @@ func mutKind(m string) string {
 func applyMut(base []byte, m string) ([]byte, error) {
 	bad := func() ([]byte, error) { return nil, fmt.Errorf("bad mutation %q for %d bytes", m, len(base)) }
 	n := len(base)
+	if strings.HasPrefix(m, "cb:") { // a generated chunk-boundary input (chunks.go): the base is not used
+		return buildCB(m)
+	}
 	if i := strings.IndexByte(m, '+'); i > 0 {
 		b1, err := applyMut(base, m[:i])
 		if err != nil {
